@@ -1659,6 +1659,10 @@ def apply_renames(P, base):
     for k in missing:
         cs = [f for f in new if parent(f.key) == parent(k) and fn_signature(f) == base[k]]
         if not cs:
+            # a nested fn moved out to the enclosing impl/module (or a helper moved into its only user): the scopes are nested
+            cs = [f for f in new if fn_signature(f) == base[k] and parent(f.key) != parent(k) and
+                  (parent(k).startswith(parent(f.key) + '::') or parent(f.key).startswith(parent(k) + '::'))]
+        if not cs:
             # second tier: same argument types, the return type was changed along with the name (Result<T, ()> -> Option<T> ...) —
             # only if the candidate still calls every pinned function the old one called (otherwise it is a new helper that took
             # over a *part* of the old body, and the rest went to the caller)
